@@ -134,3 +134,21 @@ Example C16_nonvacuous :
      [(2, [AShift 5]); (1, [AShift 4])]; [(0, [AReduce 1])]; [(0, [AReduce 2])]].
 Proof. exact nonvacuous. Qed.
 Print Assumptions C16_nonvacuous.
+
+(* ---- the whole construction as a function of the ORDERED grammar --------------------------
+   Model/TableBuild.v models create_table including the automaton phase (closure, state
+   numbering, LALR merge and propagation, FIRST/FOLLOW).  Its input [tconf] contains the
+   grammar as ordered lists only (productions by prod_id, terminals and nonterminals by their
+   position in the grammar's insertion-ordered dicts) and no hash seed, address or set
+   iteration order; sets of terminals are lists in insertion order.  So the model's table --
+   state numbering, item order, action order, finish flags -- is a function of the ordered
+   grammar (this theorem; trivial in Gallina).  What it means for the impl: the
+   correspondence table_build_correspondence (harness/lib/tabcorr.py) compares the impl's
+   table with this function under several PYTHONHASHSEEDs, so any dependence of the impl on
+   the iteration order of a set of symbols shows up as a correspondence failure. *)
+From PV Require Import Model.Automaton Model.TableBuild.
+Theorem C16_table_build_is_a_function :
+  forall (c : tconf) (r1 r2 : bres tbuilt),
+    create_table c = r1 -> create_table c = r2 -> r1 = r2.
+Proof. intros c r1 r2 H1 H2. congruence. Qed.
+Print Assumptions C16_table_build_is_a_function.
